@@ -237,10 +237,106 @@ theorem FS.locateFrom_lex (fs : FS) (start cs n : List Comp) (h : fs.locateFrom 
 
 /-! ## `~/` literals -/
 
-theorem specTarget_none (fs : FS) (file : List Comp) (t : Text) (hang : isAngle t = false) :
-    specTarget fs none file t =
+theorem isHome_cases (t : Text) (h : isHome t = true) : ∃ rest, t = '~' :: '/' :: rest := by
+  unfold isHome at h
+  match t, h with
+  | [], h => simp [List.isPrefixOf] at h
+  | [a], h => simp [List.isPrefixOf] at h
+  | a :: b :: rest, h =>
+    simp only [List.isPrefixOf, Bool.and_eq_true, beq_iff_eq, Bool.and_true] at h
+    exact ⟨rest, by rw [← h.1, ← h.2]⟩
+
+theorem parsePath_home (rest : Text) :
+    parsePath ('~' :: '/' :: rest) = ⟨false, ['~'] :: (parsePath rest).comps⟩ := by
+  have hs : splitSlash ('~' :: '/' :: rest) = ['~'] :: splitSlash rest := by
+    simp [splitSlash]
+  unfold parsePath
+  rw [hs]
+  simp [List.filter]
+
+/-- `Path("~/x").expanduser()` is the home path followed by the components of `x`. -/
+theorem expanduser_home (home : PPath) (t : Text) (h : isHome t = true) :
+    (parsePath t).expanduser home = .ok ⟨home.abs, home.comps ++ (parsePath (t.drop 2)).comps⟩ := by
+  obtain ⟨rest, rfl⟩ := isHome_cases t h
+  rw [parsePath_home]
+  simp [PPath.expanduser]
+
+/-- A literal that is neither `<…>` nor `~/…`: resolved from the directory of the importing file
+    (from the root when absolute). -/
+theorem specTarget_rel (fs : FS) (home : PPath) (cwd file : List Comp) (t : Text)
+    (hang : isAngle t = false) (hh : isHome t = false) :
+    specTarget fs home cwd file t =
       fs.locateFrom (if (parsePath t).abs then [] else file.dropLast) (parsePath t).comps := by
-  simp [specTarget, hang]
+  simp [specTarget, hang, hh]
+
+/-- A `~/x` literal: the OS's reading of `$HOME/x`. -/
+theorem specTarget_home (fs : FS) (home : PPath) (cwd file : List Comp) (t : Text)
+    (hang : isAngle t = false) (hh : isHome t = true) :
+    specTarget fs home cwd file t =
+      fs.locateFrom (if home.abs then [] else cwd) (home.comps ++ (parsePath (t.drop 2)).comps) := by
+  simp [specTarget, hang, hh, FS.locate]
+
+/-- Every error of `specTarget` on a literal that is not `<…>` is an `OSError`. -/
+theorem specTarget_error (fs : FS) (home : PPath) (cwd file : List Comp) (t : Text) (e : Err)
+    (hang : isAngle t = false) (h : specTarget fs home cwd file t = .error e) : e = .os := by
+  cases hh : isHome t with
+  | true =>
+    rw [specTarget_home fs home cwd file t hang hh] at h
+    exact fs.locateFrom_error _ _ _ h
+  | false =>
+    rw [specTarget_rel fs home cwd file t hang hh] at h
+    exact fs.locateFrom_error _ _ _ h
+
+/-! ## A canonical home directory: `$HOME/x` is `x` resolved from that directory. -/
+
+theorem FS.isDir_prefix (fs : FS) (a b : List Comp) (h : fs.isDir (a ++ b) = true) :
+    fs.isDir a = true := by
+  unfold FS.isDir at *
+  simp only [Bool.or_eq_true, List.any_eq_true, Bool.and_eq_true, decide_eq_true_eq,
+    List.isPrefixOf_iff_prefix] at *
+  have hpre : a <+: a ++ b := List.prefix_append a b
+  rcases h with (h | ⟨p, hp, hpp⟩) | ⟨e, he, hpp, hlen⟩
+  · left; left
+    cases a with
+    | nil => rfl
+    | cons x xs => simp at h
+  · left; right
+    exact ⟨p, hp, hpre.trans hpp⟩
+  · right
+    refine ⟨e, he, hpre.trans hpp, ?_⟩
+    simp only [List.length_append] at hlen
+    omega
+
+/-- Walking down existing directories by their names arrives where the names say. -/
+theorem FS.walk_canonical (fs : FS) (cur cs : List Comp) (hd : fs.isDir (cur ++ cs) = true)
+    (hc : canonical cs = true) : fs.walk cur cs = .ok (cur ++ cs) := by
+  induction cs generalizing cur with
+  | nil => simp [FS.walk]
+  | cons c cs ih =>
+    have hcur : fs.isDir cur = true := fs.isDir_prefix cur (c :: cs) hd
+    have hnext : fs.isDir (cur ++ [c]) = true := by
+      apply fs.isDir_prefix (cur ++ [c]) cs
+      simpa using hd
+    simp only [canonical, List.all_cons, Bool.and_eq_true, Bool.not_eq_eq_eq_not, Bool.not_true,
+      Bool.or_eq_false_iff] at hc
+    obtain ⟨⟨hdot, hdd⟩, hrest⟩ := hc
+    have hstep : fs.step cur c = .ok (cur ++ [c]) := by
+      simp [FS.step, hcur, hdot, hdd, hnext]
+    simp only [FS.walk, hstep]
+    have := ih (cur ++ [c]) (by simpa using hd) (by simpa [canonical] using hrest)
+    simpa using this
+
+/-- THE home lemma: for a canonical existing home directory `h`, the OS's reading of the absolute
+    path `h/x` is `x` resolved from the directory `h`. -/
+theorem FS.home_hop (fs : FS) (h cs : List Comp) (hd : fs.isDir h = true) (hc : canonical h = true) :
+    fs.locateFrom [] (h ++ cs) = fs.locateFrom h cs := by
+  have hw : fs.walk [] h = .ok h := by
+    have := fs.walk_canonical [] h (by simpa using hd) hc
+    simpa using this
+  unfold FS.locateFrom
+  have h0 : fs.isDir [] = true := by simp [FS.isDir]
+  simp only [h0, hd, Bool.not_true, Bool.false_eq_true, if_false]
+  rw [FS.walk_append, hw]
 
 theorem noHomeL_lookup (bs : List (Text × Val)) (k : Text) (v : Val)
     (h : noHomeL bs = true) (hk : bs.lookup k = some v) : v.noHome = true := by
@@ -295,5 +391,79 @@ theorem FS.content_noHome (fs : FS) (h : fs.noHome = true) (n : List Comp) :
     unfold FS.noHome at h
     rw [List.all_eq_true] at h
     exact h _ hm
+
+/-! ## When the home path and the working directory cannot matter to the SPEC: an absolute home
+path makes the working directory irrelevant; a filesystem without `~/` literals makes both
+irrelevant. -/
+
+theorem specGet_congr (fs : FS) (home₁ home₂ : PPath) (cwd₁ cwd₂ : List Comp)
+    (hh : (home₁ = home₂ ∧ home₁.abs = true) ∨ fs.noHome = true) (ks : List Text) :
+    ∀ (file : List Comp) (v : Val), (fs.noHome = true → v.noHome = true) →
+      specGet fs home₁ cwd₁ file v ks = specGet fs home₂ cwd₂ file v ks := by
+  induction ks with
+  | nil => intro file v _; cases v <;> simp [specGet]
+  | cons k ks ih =>
+    intro file v hv
+    cases v with
+    | lit n => simp [specGet]
+    | set bs =>
+      simp only [specGet, getKey]
+      cases hl : bs.lookup k with
+      | none => rfl
+      | some v =>
+        simp only
+        exact ih file v (fun hno => noHomeL_lookup bs k v (by simpa [Val.noHome] using hv hno) hl)
+    | imp a =>
+      simp only [specGet]
+      cases hra : resolveArg a with
+      | paren b => rfl
+      | other => rfl
+      | path t =>
+        have hst : specTarget fs home₁ cwd₁ file t = specTarget fs home₂ cwd₂ file t := by
+          rcases hh with ⟨rfl, habs⟩ | hno
+          · simp [specTarget, FS.locate, habs]
+          · have : isHome t = false :=
+              resolveArg_noHome a t (by simpa [Val.noHome] using hv hno) hra
+            simp [specTarget, this]
+        simp only [hst]
+        cases specTarget fs home₂ cwd₂ file t with
+        | error e => rfl
+        | ok n =>
+          simp only [specEnter]
+          cases hcn : fs.content n with
+          | notSet => rfl
+          | attrs bs =>
+            simp only [topSet, getKey]
+            cases hl : bs.lookup k with
+            | none => rfl
+            | some v =>
+              simp only
+              refine ih n v (fun hno => ?_)
+              have hc := fs.content_noHome hno n
+              rw [hcn] at hc
+              exact noHomeL_lookup bs k v (by simpa [Content.noHome] using hc) hl
+
+theorem specFrom_congr (fs : FS) (home₁ home₂ : PPath) (cwd₁ cwd₂ : List Comp) (e₁ e₂ k : Text)
+    (ks : List Text) (hh : (home₁ = home₂ ∧ home₁.abs = true) ∨ fs.noHome = true)
+    (h : fs.locate cwd₁ (parsePath e₁) = fs.locate cwd₂ (parsePath e₂)) :
+    specFrom fs home₁ cwd₁ e₁ k ks = specFrom fs home₂ cwd₂ e₂ k ks := by
+  unfold specFrom specLookup specEnter
+  rw [h]
+  cases fs.locate cwd₂ (parsePath e₂) with
+  | error e => rfl
+  | ok file =>
+    simp only
+    cases hcn : fs.content file with
+    | notSet => rfl
+    | attrs bs =>
+      simp only [topSet, getKey]
+      cases hl : bs.lookup k with
+      | none => rfl
+      | some v =>
+        simp only
+        refine specGet_congr fs home₁ home₂ cwd₁ cwd₂ hh ks file v (fun hno => ?_)
+        have hc := fs.content_noHome hno file
+        rw [hcn] at hc
+        exact noHomeL_lookup bs k v (by simpa [Content.noHome] using hc) hl
 
 end Nima
